@@ -316,7 +316,7 @@ var (
 	vFullStackFirstID uint32
 	// vDialRefused: peers created while it is set refuse dials (vPeer.refuse)
 	vDialRefused bool
-	vThinFirstID      uint32
+	vThinFirstID uint32
 )
 
 // vFullStack builds a manager with n full-stack nodes (ids 1..n) through the real
